@@ -161,8 +161,11 @@ PROPS["C20"] = {
 ENGINES.append({"name": "read", "path": "overlay/cmd/skylight + overlay/verifsim/dirgen", "serves_properties": ["C19", "C20"],
     "kind_free_text": "built skylight binary over loopback and in-package health functions on the fake clock, over directories from real sequencing/witness runs"})
 
+PROPS["C09"] = dict(SEQ,
+    level_text="Chains are built by construction from a deterministic CA hierarchy (issuer directly under a root, one or two intermediates, second root, precertificate signing certificate; NotAfter at start-1s, start, limit-1s, limit; serverAuth / clientAuth / no EKU; certificate vs precertificate; right or wrong endpoint; missing, swapped or extra chain elements; malformed JSON, base64, DER; with or without the root appended) and sent through the real add-chain / add-pre-chain handlers while the accepted root set is swapped by SetRootsFromPEM tasks whose _roots.pem upload can fail (applied or not) and the process crashes and restarts; acceptance is predicted from how the chain was built and from the modelled root set (memory vs persisted), never by re-running the validator; accepted entries must be stored as the leaf ct-go's MerkleTreeLeafFromChain derives (certificate or defanged TBS, issuer key hash also behind a precertificate signing certificate), with every chain certificate as a retrievable issuer; get-roots must equal the accepted set. The acceptance rules themselves are a function of the input: simulation supplies the constructed corpus and the stateful part (root reloads, persistence, issuer uploads under faults); stated as exploration over a constructed input family.",
+    expect_probes=["chain.true.200", "chain.false.400", "roots.set", "roots.get"])
+ENGINES[0]["serves_properties"].append("C09")
+
 NOT_APPLICABLE = {
     "C10": "pure function of its input (codec bijections): no schedule, clock, fault, I/O or second party for a simulator to control; deciding it is input generation (property-based testing), which is outside this technique. See DESIGN.md §6.",
 }
-for _p in ["C09"]:
-    NOT_APPLICABLE[_p] = "not claimed yet: the simulator for this property is still being built (see DESIGN.md §5 for the plan)"
